@@ -231,6 +231,15 @@ def make_object(rng, i):
         dt = [np.float64, np.float32, np.uint8][(i // 18) % 3]
         mk = ["all", "random", "halfplane", "single", "block"][(i // 54) % 5]
         shp = tuple(int(v) for v in rng.integers(2, 9, size=d))
+        if cls == "MaskedImage" and i % 149 == 4:
+            # a large image whose mask lacks one or two pixels only (dead pixels of a sensor)
+            import menpo.image as mi
+            shp = (int(rng.integers(330, 420)), int(rng.integers(330, 420)))
+            msk = np.ones(shp, dtype=bool)
+            for _ in range(int(rng.integers(1, 3))):
+                msk[rng.integers(0, shp[0]), rng.integers(0, shp[1])] = False
+            o = mi.MaskedImage(rng.random((1,) + shp).astype(np.float32), mask=msk)
+            return o, (cls, 2, "float32", "nearly_full_large", 0)
         o = gen.image(rng, cls, shape=shp, n_channels=int(rng.integers(1, 5)), dtype=dt, mask_kind=mk)
         nlm = int(rng.integers(0, 3))
         for g in range(nlm):
@@ -238,7 +247,7 @@ def make_object(rng, i):
         if rng.random() < 0.3:
             o.path = "somewhere/file.png"
         return o, (cls, d, np.dtype(dt).name if cls != "BooleanImage" else "bool", mk if cls != "Image" else "-", nlm)
-    K = tx.HOMOG + ["NonSquareHomogeneous"]
+    K = tx.HOMOG + ["NonSquareHomogeneous", "FortranHomogeneous"]
     kind = K[(i // 3) % len(K)]
     d = 2 + (i // (3 * len(K))) % 2
     if kind == "NonSquareHomogeneous":
@@ -248,6 +257,14 @@ def make_object(rng, i):
         h = rng.normal(size=(dout + 1, d + 1))
         h[-1, -1] = 1.0
         return mt.Homogeneous(h), (kind, d, "f8", "-", 0)
+    if kind == "FortranHomogeneous":
+        # a matrix adopted as it is (copy=False) in column-major layout: a transposed view, the result of a solver
+        import menpo.transform as mt
+        h = np.eye(d + 1) + rng.normal(scale=0.4, size=(d + 1, d + 1))
+        h[-1, :-1] = rng.uniform(-0.002, 0.002, d)
+        h[-1, -1] = 1.0
+        hf = np.asfortranarray(h) if rng.random() < 0.5 else np.ascontiguousarray(h.T).T
+        return mt.Homogeneous(hf, copy=False), (kind, d, "f8", "-", 0)
     o, _ = tx.make(rng, kind, d)
     return o, (kind, d, "f8", "-", 0)
 
